@@ -10,7 +10,7 @@ from pyvc import vals as V
 from pyvc.vals import Val, SeqV, NONE, fresh
 from pyvc.unit import Unit, LoopSpec, LemmaUnit
 from pyvc.models import Rec, Fn, Nop
-from pyvc.core import St, Module, box, Unsupported, ExcClass, TypeName, etb, ecause, eargs, Callable_, unbox_handle, PyTuple
+from pyvc.core import St, Module, box, Unsupported, ExcClass, TypeName, etb, ecause, eargs, Callable_, unbox_handle, PyTuple, Obj
 
 F = 'multiprocessing/remote_exception.py'
 rt_text = z3.Function('RemoteTraceback_tb', Val, z3.StringSort())            # .tb of a RemoteTraceback object
@@ -22,10 +22,10 @@ ASSUMPTIONS = (
     'traceback.format_exception(type(e), e, tb) contains str(e.__cause__) (the chained "direct cause" block); str(RemoteTraceback(t)) == t (unit RemoteTraceback.__str__)',
     'exception classes are BaseException subclasses with static attribute lookup',
 )
-NOT_DECIDED = ('the textual layout of formatted tracebacks',
-               'nested re-wrapping of EnsembleError members (in-place mutation of a list inside a dict inside exc.args): outside pyvc\'s by-value model -> bounded stand-in (runtime scenario)')
-BOUNDED = [{'function': 'RemoteException.__init__ (EnsembleError branch) / EnsembleError.__init__/__reduce__', 'method': 'runtime scenario replay/scenarios/c15_hops.py',
-            'bound': 'hops 1..4 x 6 exception classes x {forwarded, re-raised} x EnsembleError nesting', 'counted_as_proved': False}]
+NOT_DECIDED = ('the textual layout of formatted tracebacks', 'the text of the EnsembleError message (display only; the statements computing it are dropped from the unit, listed in the evidence)',
+               'that the members of an unpickled EnsembleError carry a remote cause (so that re-wrapping them cannot raise): follows from C15 for each member, assumed in the EnsembleError variant')
+BOUNDED = [{'function': 'composition of the EnsembleError units over several hops (members inside a dict inside exc.args)', 'method': 'runtime scenario replay/scenarios/c15_hops.py',
+            'bound': 'hops 1..4 x 8 exception classes x {forwarded, re-raised} x EnsembleError nesting', 'counted_as_proved': False}]
 
 
 def is_remote(cause_of_e):
@@ -214,6 +214,151 @@ class ReInit(Unit):
                           z3.And(V.isinst(p, 'ValueError'), z3.Not(has_tb), z3.Not(is_remote(c))))
 
 
+
+class MemberList(Obj):
+    """exc.args[1]['y'] of an EnsembleError: a mutable list (array + fixed length), mutated in place by RemoteException.__init__"""
+
+    def __init__(self, ex):
+        super().__init__(ex, 'members')
+        self.n = z3.Int('n_members')
+
+    def init(self, st):
+        self.set(st, 'arr', z3.Const('members0', z3.ArraySort(z3.IntSort(), Val)))
+        return self
+
+    def length(self, ex, st, node):
+        return [('ok', st, self.n)]
+
+    def getitem(self, ex, st, idx, node):
+        from pyvc.core import as_int
+        i = as_int(ex, st, idx)
+        ex.oblige(st, f'line {node.lineno}: member index in range', z3.And(i >= 0, i < self.n))
+        return [('ok', st, z3.Select(self.get(st, 'arr'), i))]
+
+    def setitem(self, ex, st, idx, v, node):
+        from pyvc.core import as_int
+        i = as_int(ex, st, idx)
+        ex.oblige(st, f'line {node.lineno}: member index in range', z3.And(i >= 0, i < self.n))
+        st = st.fork()
+        self.set(st, 'arr', z3.Store(self.get(st, 'arr'), i, box(ex, v)))
+        return [('ok', st, None)]
+
+
+remote_of = z3.Function('RemoteException', Val, Val)
+
+
+class ReInitEnsemble(ReInit):
+    """RemoteException.__init__(exc) for an EnsembleError: besides the common part, every member that is a bare exception (it came back from
+    another process, where the RemoteException around it dissolved) is wrapped again -- in place, member by member, nothing else touched."""
+    variant = 'EnsembleError'
+    unreachable_ok = ('if isinstance(tb, str):', 'pass', 'tb = \'\'.join(traceback.format_exception(type(exc), exc, tb))', "tb = f'[{multiprocessing.current_process().name}] ' + tb\n", 'raise ValueError(f\'expecting no traceback')
+    canaries = (('members re-wrapped only up to the first one', '            for i in range(len(z)):', '            for i in range(min(1, len(z))):', ''),
+                ('already wrapped members wrapped again', 'if isinstance(z[i], BaseException):', 'if True:', ''),
+                ('wrapped member stored in the wrong slot', 'z[i] = self.__class__(z[i])', 'z[0] = self.__class__(z[i])', ''))
+
+    def setup(self, ex):
+        st = super().setup(ex)
+        # the same exception, but an EnsembleError this time
+        st.pc = [c for c in st.pc if 'EnsembleError' not in str(c)]
+        st.assume(V.isinst(self.exc, 'EnsembleError'), V.is_tup(eargs(self.exc)), z3.Length(V.items(eargs(self.exc))) == 2)       # EnsembleError.args == (message, results)
+        self.members = MemberList(ex).init(st)
+        st.assume(self.members.n >= 0)
+        self.arr0 = self.members.get(st, 'arr')
+        unit = self
+
+        class ArgsModel:
+            def getitem(self_, e, s, base, idx, node):
+                if z3.is_string_value(idx) and idx.as_string() == 'y':
+                    return [('ok', s, unit.members)]
+                raise Unsupported('results key')
+        ex.sym_models['exc.args[1]'] = ArgsModel()
+
+        def ctor(e, s, a, k, n):
+            # the recursive call, against this very contract: wraps its argument (members of an EnsembleError that are bare exceptions came out of
+            # a RemoteException in another process: they carry a remote cause, so the constructor does not raise -- assumption, stated)
+            return [('ok', s, remote_of(box(e, a[0])))]
+        self.me.set(st, '__class__', Fn(ctor))
+        self.J = z3.Int('any_member')
+        return st
+
+    def want(self, j):
+        old = z3.Select(self.arr0, j)
+        return z3.If(z3.And(V.isinst(old, 'BaseException'), z3.Not(V.isinst(old, 'RemoteException'))), remote_of(old), old)
+
+    @property
+    def loops(self):
+        def inv(s, ex):
+            i = [o for o in [s.ghost.get(k) for k in s.ghost if str(k).startswith('#r')] if o is not None]
+            arr = self.members.get(s, 'arr')
+            j = self.J
+            idx = i[0] if i else z3.IntVal(0)
+            return z3.And(z3.Implies(z3.And(j >= 0, j < idx), z3.Select(arr, j) == self.want(j)), z3.Implies(j >= idx, z3.Select(arr, j) == z3.Select(self.arr0, j)), idx <= self.members.n)
+        return {0: LoopSpec(inv=inv, keep=('z',))}
+
+    def post(self, ex, outs):
+        super().post(ex, outs)
+        j = self.J
+        for k, s, p in outs:
+            if k in ('normal', 'return'):
+                arr = self.members.get(s, 'arr')
+                ex.oblige(s, 'exit: every member that was a bare exception is now RemoteException(that member), in its own slot; every other member (results, RemoteExceptions) is untouched',
+                          z3.Implies(z3.And(j >= 0, j < self.members.n), z3.Select(arr, j) == self.want(j)))
+
+
+class EnsembleInit(Unit):
+    """EnsembleError.__init__(results): args == (a message, the very results dict).  The message text (counts, first error) is display only and is not
+    modelled: the four statements computing it are dropped (listed in the evidence)."""
+    prop = 'C15'
+    file = F
+    qual = 'EnsembleError.__init__'
+    ignore_stmts = (r"nerr = sum\(.*", r"errmsg = None", r"for v in results\['y'\]:.*", r"msg = f.*")
+    canaries = (('results replaced by a copy of the member list', 'super().__init__(msg, results)', "super().__init__(msg, {'y': list(results['y']), 'n': results['n']})", ''),)
+
+    def setup(self, ex):
+        st = St()
+        self.results = z3.Const('results', Val)
+        st.env.update(self=Rec(ex, 'self'), results=self.results, msg=z3.String('message'))
+        st.ghost['init'] = ()
+        return st
+
+    def on_call(self, ex, st, e, src):
+        if src == 'super().__init__':
+            def f(s, ak):
+                s = s.fork()
+                s.ghost['init'] = s.ghost['init'] + (tuple(ak[0]),)
+                return [('ok', s, NONE)]
+            return ex.bind(ex.evargs(e, st), f)
+        return None
+
+    def post(self, ex, outs):
+        for k, s, p in outs:
+            i = s.ghost['init']
+            ok = k in ('normal', 'return') and len(i) == 1 and len(i[0]) == 2
+            ex.oblige(s, 'exit: args == (message, results): the second argument is the very results object (same dict, same member list)', box(ex, i[0][1]) == self.results if ok else z3.BoolVal(False))
+
+
+class EnsembleReduce(Unit):
+    prop = 'C15'
+    file = F
+    qual = 'EnsembleError.__reduce__'
+    canaries = (('message pickled instead of the results', 'return type(self), (self.args[1],)', 'return type(self), (self.args[0],)', ''),)
+
+    def setup(self, ex):
+        st = St()
+        self.msg, self.results = z3.Const('message', Val), z3.Const('results', Val)
+        self.cls = z3.Const('type(self)', Val)
+        st.env['self'] = Rec(ex, 'self', immutable=True).init(st, args=PyTuple([self.msg, self.results]))
+        ex.globals['type'] = Fn(lambda e, s, a, k, n: [('ok', s, self.cls)])
+        return st
+
+    def post(self, ex, outs):
+        for k, s, p in outs:
+            p = unbox_handle(ex, p)
+            ok = k in ('normal', 'return') and isinstance(p, PyTuple) and len(p.items) == 2 and isinstance(unbox_handle(ex, p.items[1]), PyTuple) and len(unbox_handle(ex, p.items[1]).items) == 1
+            ex.oblige(s, 'exit: pickles as (its own class, (results,)): rebuilt by EnsembleError(results) from the same results (members pickled by their own classes: unit RemoteException.__reduce__)',
+                      z3.And(box(ex, p.items[0]) == self.cls, box(ex, unbox_handle(ex, p.items[1]).items[0]) == self.results) if ok else z3.BoolVal(False))
+
+
 class FmtList:
     def __init__(self, exc):
         self.exc = exc
@@ -270,6 +415,6 @@ class HopLemma(LemmaUnit):
                z3.And(V.ucls(e1) == V.ucls(e0), eargs(e1) == eargs(e0), is_remote(c1), rt_text(c1) == z3.Concat(pre, orig, z3.StringVal(''))))
 
 
-UNITS = [IsRemoteUnit, GetTbUnit, RtInit, RtStr, RebuildUnit, ReInit, ReReduce, HopLemma]
+UNITS = [IsRemoteUnit, GetTbUnit, RtInit, RtStr, RebuildUnit, ReInit, ReInitEnsemble, EnsembleInit, EnsembleReduce, ReReduce, HopLemma]
 SCENARIOS = [('', 'replay/scenarios/c15_hops.py')]
 ALWAYS_RUN_SCENARIOS = True      # the EnsembleError clause is decided only by the bounded stand-in (fast: < 1 s)
